@@ -20,13 +20,13 @@ CONF = dict(
                'differential execution on mutated honest packets, with the property oracle evaluated on the implementation\'s accept/reject decisions'),
     level_text=('Theorems hold for all keys, nonces, identifiers, headers, cookies and all byte strings presented to a receiver (no sampling), relative to the symbolic AEAD. '
                 'The correspondence run drives the real encoder, decoder, ProcessRequest/ProcessResponse, the cookie functions, ExportKeys over real TLS and the real IP listener.'),
-    level_note='Crypto is symbolic (ideal AEAD); real AES-SIV is as good as its cryptographic assumption. Completeness of encode->decode is partial in Coq (authentication step proved; byte-level round trip enforced by the run-time oracle). SCION listener not driven (same nts/ntske calls as the IP listener). No axioms.',
+    level_note='Crypto is symbolic (ideal AEAD); real AES-SIV is as good as its cryptographic assumption. Completeness is proved at byte level (C10_complete: DecodePacket after EncodePacket yields exactly the encoder\'s nonce, ciphertext and authenticator position, and NewRequestPacket/NewResponsePacket output is accepted under the sealing key; C10_complete_encoder for any fields within 1024 bytes) and additionally enforced by the run-time oracle. A client comparing with an identifier whose length is not a multiple of 4 rejects the padded echo (C10_complete_needs_padded_uid; the project\'s identifiers have 32 bytes). SCION listener not driven (same nts/ntske calls as the IP listener). No axioms.',
     explanation=('Case kinds: nts.req / nts.resp = real DecodePacket + ProcessRequest / ProcessResponse on honest and mutated packets (decode result, authenticator position, '
                  'error class, cookies kept are compared with the model; the oracle C10_packet_ok is evaluated on accept/reject); nts.encode / nts.newreq / nts.newresp = real encoder '
                  'byte for byte incl. the 1024-byte truncation/panic boundaries; ck.seal / ck.open / ck.hist / ck.tlv = cookie functions incl. multi-cookie histories (results read after '
                  'later openings); ke.export = ExportKeys on both ends of a real TLS 1.3 handshake; srv.ip = the real IP listener with a real Provider, reply/no reply by sentinel, reply '
-                 'verified with ProcessResponse. Completeness of the encoder/decoder pair is proved for the authentication step only (C10_complete_partial); the round trip through the '
-                 'byte encoding is enforced by the oracle on every run (tag complete). Observation: AES-SIV never uses the CTR half of the key when the plaintext is empty (every NTS '
+                 'verified with ProcessResponse. Completeness of the encoder/decoder pair is proved in Coq through the byte encoding (Proofs/NtsAuthComplete.v: EncodePacket = wire format, DecodePacket of the wire format, '
+                 'NewResponsePacket plaintext walked by authenticate; C10_complete, C10_complete_encoder) and also enforced by the oracle on every run (tag complete). Observation: AES-SIV never uses the CTR half of the key when the plaintext is empty (every NTS '
                  'request), so a C2S key differing only in its second half verifies the same request; wrong-key cases for requests therefore differ in the MAC half.'),
     timeout_quick=900,
     timeout_thorough=3000,
